@@ -921,7 +921,7 @@ func c09HandlerStream(r *hx.Rand, n int, big int, full bool, emit func(*hx.Line)
 			cls = strings.Join(q.muts, "+")
 		}
 		l := hx.NewLine("C09").S("kind", "handler").S("router", cb.router).S("cfg", cb.cfg).S("entry", entry).S("route", q.path).S("method", q.method).
-			S("grant", q.form.Get("grant_type")).S("mut", cls).B("panic", o.panicked).I("commits", int64(o.commits)).I("afterErr", int64(o.afterErr)).I("status", int64(o.status))
+			S("grant", clip(q.form.Get("grant_type"), 80)).S("mut", cls).B("panic", o.panicked).I("commits", int64(o.commits)).I("afterErr", int64(o.afterErr)).I("status", int64(o.status))
 		if o.panicked {
 			l.S("pv", clip(o.pv, 160)).S("lastcall", o.lastCall)
 		}
@@ -1001,6 +1001,10 @@ func c09HandlerStream(r *hx.Rand, n int, big int, full bool, emit func(*hx.Line)
 			run(cb, q)
 		}
 		for _, q := range cb.headerAndPKCECases(r) {
+			run(cb, q)
+		}
+		// byte classes x length boundaries at every route: as body, raw query, parameter value, Bearer token, Basic credentials
+		for _, q := range cb.rawByteCases(r, c09FullBytes) {
 			run(cb, q)
 		}
 	}
@@ -1551,13 +1555,19 @@ func c09Nil(v any) bool {
 	return false
 }
 
-func c09ClientStream(r *hx.Rand, n int, emit func(*hx.Line), stats map[string]int) {
+// c09Helper: one client-side helper of the library under test; site = the function whose decode site the model composes
+// ("" = none), nilOK = a nil value with a nil error is the helper's contract, f = nil: runs in a child process (JWKS)
+type c09Helper struct {
+	name, site string
+	nilOK      bool
+	f          func(hc *http.Client) (any, error)
+}
+
+// c09ClientHelpers: every client-side helper that reads a provider response (shared by the client stream and the
+// hostile-provider stream of c09prov.go)
+func c09ClientHelpers() []c09Helper {
 	ctx := context.Background()
-	type helper struct {
-		name, site string
-		nilOK      bool
-		f          func(hc *http.Client) (any, error)
-	}
+	type helper = c09Helper
 	oauthCfg := func() *oauth2.Config {
 		return &oauth2.Config{ClientID: "c", ClientSecret: "s", RedirectURL: "https://rp.example/cb", Scopes: []string{"openid"},
 			Endpoint: oauth2.Endpoint{AuthURL: c09Iss + "/authorize", TokenURL: c09Iss + "/token", DeviceAuthURL: c09Iss + "/device"}}
@@ -1639,6 +1649,12 @@ func c09ClientStream(r *hx.Rand, n int, emit func(*hx.Line), stats map[string]in
 			return nil, httphelper.HttpRequest(hc, req, &v)
 		}},
 	}
+	return helpers
+}
+
+func c09ClientStream(r *hx.Rand, n int, emit func(*hx.Line), stats map[string]int) {
+	type helper = c09Helper
+	helpers := c09ClientHelpers()
 	jwksTok := c09Signed(`{"sub":"a"}`, "sig1")
 	run := func(h helper, status int, body string, hdr http.Header) {
 		rt := &c09RT{status: status, body: body, hdr: hdr}
@@ -1717,6 +1733,8 @@ type c09RS struct{ c09Caller }
 
 // ---------------------------------------------------------------- the stream
 
+var c09FullBytes bool
+
 func c09Stream(r *hx.Rand, tier string, n int, w *bufio.Writer) map[string]int {
 	if n == 0 {
 		n = 6000
@@ -1736,6 +1754,9 @@ func c09Stream(r *hx.Rand, tier string, n int, w *bufio.Writer) map[string]int {
 		fmt.Fprintf(w, "C09 case=%d %s\n", id, strings.TrimPrefix(s, "C09 "))
 		id++
 	}
+	// the byte-class streams (raw, prov) run their full cross only in a real thorough run: a search after a broken proof
+	// (tier thorough with a small case budget, see check) gets the rotating schedule of the quick tier
+	c09FullBytes = tier == "thorough" && n >= 100000
 	c09HandlerStream(r, n*45/100, big, tier == "thorough", emit, stats)
 	c09DecoderStream(r, n/100, emit, stats)
 	c09BytesStream(r, n/100, emit, stats)
@@ -1743,6 +1764,7 @@ func c09Stream(r *hx.Rand, tier string, n int, w *bufio.Writer) map[string]int {
 	c09VerifyStream(r, n*3/100, emit, stats)
 	c09HintCallerStream(emit, stats)
 	c09ClientStream(r, n*20/100, emit, stats)
+	c09ProviderStream(r, c09FullBytes, emit, stats)
 	c09RPHandlerStream(r, n/100, emit, stats)
 	return stats
 }
